@@ -210,6 +210,8 @@ def gen_reasm(tier, r):
         if m < 0.1 and blob:
             blob = blob[: r.randrange(len(blob))]           # blob that does not decode
         npieces = r.choice([1, 2, 3, 5, 8]) if m < 0.97 else 60
+        if i % 25 == 7:
+            npieces = (48, 49, 50, 51)[(i // 25) % 4]       # around MAX_REASSEMBLY: 50 pieces are accepted, 51 refused
         cuts = sorted(r.randrange(len(blob) + 1) for _ in range(npieces - 1))
         if regular and m < 0.97:
             size = r.choice([1, 2, 4, 16, 64, 257, 514])
